@@ -565,12 +565,29 @@ class Lib:
             return self.call_method(ctx, b.bound, name[len("method."):], args, kwargs)
         if name.startswith("exc."):
             return self.call_exc_method(ctx, b.bound, name[len("exc."):], args, kwargs)
+        self._lib_pre(ctx, name, args, kwargs)
         fn = getattr(self, "bi_" + name.replace(".", "_"), None)
         if fn is None:
             if name.startswith("typing."):
                 return V.Opaque(name)
             raise EngineLimit("call of external function %s" % name)
         return fn(ctx, *args, **kwargs)
+
+    def _lib_pre(self, ctx, name, args, kwargs):
+        """Assert-style obligations on the arguments of a library call made by the function under verification:
+           the contract declares `lib_pre = {"<library function>": fn(s, args) -> dict label -> clause}`; each clause is
+           obligated under the path condition at the call (inside a set-building loop: for an arbitrary iteration)."""
+        c = getattr(ctx, "top_contract", None)
+        if c is None or ctx.spec_mode or ctx.inline_depth:
+            return
+        table = getattr(c, "lib_pre", None) or getattr(c.impl, "lib_pre", None)
+        if not table or name not in table:
+            return
+        from .symexec import short, lift_bool
+
+        r = self.e.run_spec(ctx, table[name], ctx.top_ns, list(args))
+        for label, clause in (r or {}).items():
+            ctx.oblige("%s/lib-pre#%s#%s" % (short(ctx.func), name.split(".")[-1], label), lift_bool(clause), kind="assert")
 
     def call_exc_method(self, ctx, exc, name, args, kwargs):
         if name == "set_error_location_if_unknown":
